@@ -86,6 +86,8 @@ class Counter:
         self.alt = bool(fill.get("alt", True))
         self.mod = int(fill.get("mod", 0))
         self.square = bool(fill.get("square", False))
+        self.pattern = fill.get("pattern", "")
+        self.floaty = bool(fill.get("float", False))
         self.dtype = dtype
         self.k = 0
 
@@ -101,8 +103,36 @@ class Counter:
             v = -v
         return v
 
+    def monomial(self, shape, pattern):
+        """Integer families for the LAPACK kernels: at most one non-zero per row and
+        column, pairwise distinct magnitudes (perfect squares with 'square')."""
+        m, n = shape
+        a = np.zeros((m, n), dtype="float64")
+        k = min(m, n)
+        if pattern == "diag":
+            cols = list(range(k))
+        else:
+            cols = list(range(n))
+            # deterministic shuffle
+            for i in range(n - 1, 0, -1):
+                j = (self.n * 7 + i * 3) % (i + 1)
+                cols[i], cols[j] = cols[j], cols[i]
+        for i in range(k):
+            v = self.value()
+            if pattern == "monomial_deficient" and i == k - 1 and k > 1:
+                continue  # rank deficient block
+            a[i, cols[i]] = v
+        return a.astype(self.dtype)
+
     def __call__(self, shape):
+        if self.pattern and len(shape) == 2:
+            return self.monomial(shape, self.pattern)
         size = int(np.prod(shape, dtype=int))
+        if self.floaty:
+            # non-integral data: takes the observation route downstream of LAPACK
+            re = np.array([np.sin(1.3 * self.value()) * 2.1 + 0.05 for _ in range(size)])
+            a = re + (1j * np.cos(re * 3.7) if "complex" in self.dtype else 0)
+            return np.asarray(a).reshape(shape).astype(self.dtype)
         re = np.array([self.value() for _ in range(size)], dtype="float64")
         if "complex" in self.dtype:
             im = np.array(
